@@ -133,6 +133,15 @@ class Real:
         ready = anyio.Event()
         log = self.events.setdefault(c, [])
 
+        async def stalled(*, task_status):
+            # a listener that subscribed earlier and never keeps up (its queue of one is full after the first event): the others
+            # must go on receiving every event
+            with anyio.CancelScope() as scope:
+                self.listeners[("stalled", c)] = scope
+                async with ctx.resource_added.stream_events(max_queue_size=1):
+                    task_status.started()
+                    await anyio.sleep_forever()
+
         async def run(*, task_status):
             with anyio.CancelScope() as scope:
                 self.listeners[c] = scope
@@ -141,6 +150,8 @@ class Real:
                     async for ev in stream:
                         log.append(ev)
 
+        if self.variant % 2:
+            await self.tg.start(stalled)
         await self.tg.start(run)
 
     def ev_tuple(self, c, ev):
@@ -777,6 +788,8 @@ _G = None      # the graph, shared with forked workers instead of being pickled
 
 
 def _walk_part(args):
+    import warnings
+    warnings.simplefilter("ignore")          # the stalled listener's SignalQueueFull warnings are expected
     part, nparts, nctx, names, seed = args[:5]
     life = len(args) > 5 and args[5]
     inj = len(args) > 6 and args[6]
